@@ -634,6 +634,39 @@ def c03(rep, tier):
             if is_call(l, '::size') and field_chain(l['obj'])[1][-1:] == ['stack_maps'] and r.get('k') == 'int' and r['v'] == 1 and len(sm_push) == 1:
                 ok = gp.dominates(sm_push[0], gp.ev(prog_inits[0]))
         F.check(ok, 'popSymbols: Prog.mi', 'index of the stack map pushed just before', 'stack-map index is %s' % show(pf.get('mi')), W(m, pop, prog_inits[0]))
+        # the index stays valid: the table of stack maps only ever grows at its end (PREPAREs that were emitted keep the index they carry)
+        def on_maps(x, f_):
+            x = strip_casts(x) if x is not None else None
+            if x is None:
+                return False
+            if field_chain(x)[1][-1:] == ['stack_maps']:
+                return True
+            if x.get('k') == 'ref' and x.get('dk') == 'var':
+                # a reference local: auto &maps = gs.out.stack_maps
+                for st_ in walk_stmts(f_['body']):
+                    if st_['k'] == 'decl':
+                        for v_ in st_['vars']:
+                            if v_.get('d') == x.get('d') and v_.get('is_ref') and v_.get('init') is not None:
+                                return field_chain(strip_casts(v_['init']))[1][-1:] == ['stack_maps']
+                return False
+            if x.get('k') == 'call' and x.get('obj') is not None and m.callee(x).split('::')[-1] in ('begin', 'end', 'rbegin', 'rend'):
+                return on_maps(x['obj'], f_)
+            return False
+        shrink = None
+        for f_ in m.all_fns():
+            for e in walk_all_exprs(f_['body']):
+                if e.get('k') != 'call':
+                    continue
+                short = m.callee(e).split('::')[-1]
+                if e.get('obj') is not None and on_maps(e['obj'], f_) and short in ('erase', 'pop_back', 'clear', 'resize', 'insert', 'emplace', 'swap', 'assign', 'operator='):
+                    shrink = shrink or (f_, e, short)
+                if e.get('obj') is None and short in ('unique', 'remove', 'remove_if', 'erase', 'erase_if', 'sort', 'stable_sort', 'reverse', 'rotate') and \
+                        any(on_maps(a, f_) for a in e.get('args', [])):
+                    shrink = shrink or (f_, e, short)
+        F.check(shrink is None, 'stack-map table', 'entries are only appended (push_back in popSymbols): an index that was emitted keeps denoting the same map',
+                ('%s on the table of stack maps in %s: the maps behind the changed place move, but the PREPARE instructions that were emitted carry the old indices - a frame '
+                 'is described by the map of another routine' % (shrink[2], shrink[0]['q'])) if shrink else '', W(m, shrink[0], shrink[1]) if shrink else W(m, pop),
+                witness={'input': 'the same one-routine file included twice in a row, then a call'} if shrink else None)
         # funcAddrs[fgs.name] = p
         reg = [e for e in walk_all_exprs(pop['body']) if e.get('k') == 'call' and m.callee(e).endswith('::operator=') and is_call(strip_casts(e.get('obj')), '::operator[]')
                and field_chain(strip_casts(e['obj'])['obj'])[1][-1:] == ['funcAddrs']]
